@@ -78,7 +78,7 @@ Qed.
 Definition script_comp (P : prog) (self : ops) : M value :=
   let c := global_ctx (p_strict P) in
   do _ <- global_declaration_instantiation P self (p_body P) c;;
-  do r <- o_run self [KSeq (p_body P) None] (CNormal None) c;;
+  do r <- o_run self (script_frames P) (CNormal None) c;;
   match r with
   | MDone (CNormal v) => ret (match v with Some x => x | None => VUndef end)
   | MDone (CThrow v) => throwv v
